@@ -217,6 +217,23 @@ CLAIMED["C15"] = dict(
         "each matched by schema feature and validator message. $ref / $defs not covered.",
    technique="Coq proofs over the bound-normalisation and attribute-naming models + helper correspondence + jsonschema reference "
              "validator on values returned by the built types", design="§8 C15")
+CLAIMED["C19"] = dict(
+   text="Machine-checked proof (Coq), partial: object identity is modelled as a heap of cells (Model/Heap.v) and "
+        "utils.functional.copy_value, the copy get_default applies to every default, as a heap-threading function. For every object graph "
+        "(any nesting of lists / sets / frozensets / tuples / dicts over shared atoms and opaque objects, any sharing, any size) the copy "
+        "denotes the same value (C19_copy_same_value), leaves every existing object as it was (C19_copy_leaves_heap), shares no "
+        "container with anything that existed before (C19_copy_shares_no_container), and so any in-place write into a container reachable "
+        "through one instance is invisible through the default and through another instance (C19_instances_independent).",
+   note="Trusted: Coq kernel; Model/Heap.v as a description of copy_value (tied by the copy-value suite: object graphs with sharing, "
+        "the heap after the real call read back through id()). Partial: identity is not part of the value calculus of the other models, "
+        "so that every default of every spelling really goes through this copy, that parsing leaves the caller's inputs as they were and "
+        "that no call depends on earlier calls is decided on the implementation: the default-aliasing suite (three results from defaults, "
+        "raw writes into every container, identities and values of results / default objects / shared factory objects) and the history "
+        "suite (4-8 mixed valid / invalid calls, results written into between calls, each outcome compared with the same call made first "
+        "in a freshly forked process, each input compared with its deep snapshot). A result may alias its *input* where a converter "
+        "returns its argument (bare list / dict / Any fields): the property does not forbid that and the suites do not flag it.",
+   technique="Coq proofs over a heap model of copy_value + copy-value correspondence through id() + aliasing / snapshot / fresh-process "
+             "history oracles on the implementation", design="§8 C19")
 NOT_YET = {}
 for i in range(1, 21):
     pid = "C%02d" % i
